@@ -156,6 +156,7 @@ type FnV struct {
 	lastDocWrite string
 	curWriteTarget ssa.Value
 	curWriteKey string
+	callFlags map[string][]string
 	published []publishedRef
 	ownRecover bool
 	pendingOrder []string
@@ -346,7 +347,8 @@ func (fv *FnV) havoc(st *State, ms *ModSet, why string) {
 	// Lock state is not changed by calls: every function that locks or unlocks directly carries lock-balance
 	// obligations (package-wide `locks` tag), so by induction over the call tree a call returns with every mutex as it found it.
 	heldBefore := fv.heapGet(st, "G|held")
-	defer func() { st.heap["G|held"] = heldBefore }()
+	waitedBefore := fv.heapGet(st, "G|waited")
+	defer func() { st.heap["G|held"] = heldBefore; st.heap["G|waited"] = waitedBefore }()
 	switch {
 	case ms.all || ms.external:
 		nb := fv.newBase()
